@@ -48,5 +48,6 @@ PROP = dict(
         R("beta", "B", "./internal/stats", "TestC12Beta", (60000, 2), (200000, 16)),
         R("ttest", "B", "./internal/stats", "TestC12TTest", (10000, 5), (70000, 16)),
         R("descr", "B", "./internal/stats", "TestC12Descr", (10000, 5), (65000, 16)),
+        R("huge", "B", "./internal/stats", "TestC12Huge", (3000, 1), (30000, 4)),
     ],
 )
